@@ -50,7 +50,8 @@ def job(j):
         doc = render.DocText(nodes, layout=st["n"] % 2, reverse_defs=(st["n"] % 3 == 0 and is_seed))
         cs = CaseState({})
         cs.ctx = {"__cs": cs}
-        eng = w.engine({})
+        eng = w.engine({"hooks": True})
+        w.hook_calls = w.tr_calls = 0
         opn = first_op_name(nodes)
         is_sub = any(n["k"] == "OP" and n["optype"] == "subscription" and (n["name"] or None) == opn for n in nodes)
         try:
@@ -102,6 +103,8 @@ def job(j):
                     mm.append("document violating %s answered without errors" % rec["rule"])
                 if cs.calls:
                     mm.append("document violating %s ran resolvers %s" % (rec["rule"], [list(c[0]) for c in cs.calls]))
+                if w.hook_calls or w.tr_calls:
+                    mm.append("document violating %s invoked %d directive hooks and %d type resolvers" % (rec["rule"], w.hook_calls, w.tr_calls))
             for t in tags:
                 st["tags"][t] = st["tags"].get(t, 0) + 1
         if len(st["samples"]) < 2 and st["n"] % 211 == 5:
